@@ -74,6 +74,8 @@ func apiDesc() gen.Desc {
 			{ID: "delA", Method: "DELETE", Template: "/a/{id}", Params: []gen.Param{pathP("id")}, Security: []gen.SecReq{{"tok": {}}}},
 			{ID: "getB", Method: "GET", Template: "/b/{x}", Params: []gen.Param{pathP("x"), str("q", "query")}, Security: []gen.SecReq{{"key": {}}, {}}},
 			// admitted only through a wildcard consumes entry: the consumer comes from the API-wide registrations
+			// no path parameter at all: nothing route-specific distinguishes two requests to it
+			{ID: "postE", Method: "POST", Template: "/e", Params: []gen.Param{{Name: "body", In: "body", Required: true}}, Security: []gen.SecReq{{"key": {}}}},
 			{ID: "postW", Method: "POST", Template: "/w/{id}", Params: []gen.Param{pathP("id"), {Name: "body", In: "body", Required: true}},
 				Consumes: []string{"text/*"}},
 		},
@@ -150,6 +152,9 @@ func buildServer() (*server, error) {
 		if strings.HasSuffix(tok, "~bad") {
 			return nil, oerrors.New(401, "bad key %s", tok)
 		}
+		if strings.HasSuffix(tok, "~zero") {
+			return "", nil // a principal that happens to be the zero value of its type is still a principal
+		}
 		return "P:" + tok, nil
 	}))
 	api.RegisterAuth("tok", security.APIKeyAuth("tok", "query", func(tok string) (interface{}, error) {
@@ -162,7 +167,7 @@ func buildServer() (*server, error) {
 	}))
 	api.RegisterAuthorizer(rt.AuthorizerFunc(func(r *http.Request, p interface{}) error {
 		want := r.Header.Get("X-Token")
-		if ps, ok := p.(string); ok {
+		if ps, ok := p.(string); ok && ps != "" {
 			if tokenOf(strings.TrimPrefix(ps, "P:")) != want {
 				s.xt.add(fmt.Sprintf("authorizer: request of token %q shown principal %q", want, ps))
 			}
@@ -233,10 +238,12 @@ type reqSpec struct {
 	req     *http.Request
 	expect  map[string]string // bound name -> expected canonical text
 	expBody string
+	// wantStatus: 0 = 200
+	wantStatus int
 }
 
 func mkRequest(r *rand.Rand, token string) *reqSpec {
-	ops := []string{"getA", "postA", "putB", "delA", "getB", "postW"}
+	ops := []string{"getA", "postA", "putB", "delA", "getB", "postW", "postE", "postE"}
 	op := ops[r.Intn(len(ops))]
 	acc := []string{"application/json", "text/plain"}[r.Intn(2)]
 	rs := &reqSpec{op: op, token: token, accept: acc, expect: map[string]string{}}
@@ -261,6 +268,16 @@ func mkRequest(r *rand.Rand, token string) *reqSpec {
 		req.Header.Set("X-Key", v("k"))
 		rs.expect["id"] = v("id")
 		rs.expBody = token
+	case "postE":
+		body := fmt.Sprintf(`{"t":%q}`, token)
+		req = httptest.NewRequest("POST", "/api/e", strings.NewReader(body))
+		req.Header.Set("Content-Type", "application/json")
+		if r.Intn(3) == 0 {
+			rs.wantStatus = 401 // no credentials: whatever earlier requests to this route presented
+		} else {
+			req.Header.Set("X-Key", v("k"))
+			rs.expBody = token
+		}
 	case "postW":
 		body := fmt.Sprintf(`{"t":%q}`, token)
 		req = httptest.NewRequest("POST", "/api/w/"+url.PathEscape(v("id")), strings.NewReader(body))
@@ -288,6 +305,12 @@ func mkRequest(r *rand.Rand, token string) *reqSpec {
 }
 
 func judgeResponse(rs *reqSpec, rec *httptest.ResponseRecorder) string {
+	if rs.wantStatus != 0 {
+		if rec.Code != rs.wantStatus {
+			return fmt.Sprintf("status %d, expected %d (the request carries no credentials); body %.120q", rec.Code, rs.wantStatus, rec.Body.String())
+		}
+		return ""
+	}
 	if rec.Code != 200 {
 		return fmt.Sprintf("status %d body %.120q", rec.Code, rec.Body.String())
 	}
@@ -555,6 +578,8 @@ func runSequence(m *mon.M, s *server, sc *SeqCase, cfg *RunCfg) {
 		req.Header.Set("X-Key", v("k"))
 	case "bad":
 		req.Header.Set("X-Key", v("k")+"~bad")
+	case "zero":
+		req.Header.Set("X-Key", v("k")+"~zero")
 	}
 	if sc.CT != "" {
 		req.Header.Set("Content-Type", sc.CT)
@@ -734,7 +759,7 @@ func runSequence(m *mon.M, s *server, sc *SeqCase, cfg *RunCfg) {
 func genSeq(r *rand.Rand) *SeqCase {
 	sc := &SeqCase{
 		Op:     []string{"getA", "postA", "getB", "postA"}[r.Intn(4)],
-		Cred:   []string{"good", "good", "bad", "none"}[r.Intn(4)],
+		Cred:   []string{"good", "good", "bad", "none", "zero"}[r.Intn(5)],
 		CT:     []string{"application/json", "application/json; charset=utf-8", "", "text/plain", "bogus/"}[r.Intn(5)],
 		Accept: []string{"application/json", "text/plain", "", "image/png", "text/plain;q=0.5, application/json;q=0.4"}[r.Intn(5)],
 	}
